@@ -513,7 +513,7 @@ func TestC10ReorgForeign(t *testing.T) {
 		foreignScenario(m, r, i, []int{2, 3})
 	}
 	// adaptive: a required shape that no scenario managed to build is attempted again (bounded)
-	for extra := 0; extra < 4 && m.Violations() == 0; extra++ {
+	for extra := 0; extra < 4 && m.Violations() < 30; extra++ { // listed findings count as violations too
 		missing := false
 		for _, c := range foreignNeed {
 			if m.Seen(c) == 0 {
